@@ -510,6 +510,24 @@ func c03Shapes() []c03Shape {
 			r.add(done(bits[rnd.Intn(len(bits))], 1))
 			return r
 		}},
+		{"ends-with-doneproc-final", func(rnd *rt.Rand) *response {
+			// a procedure's response may end with DONEPROC / DONEINPROC
+			// carrying the final status: that token is the response's one
+			// final DONE (the library delivers all three tokens as
+			// DonePackage)
+			r := &response{}
+			if rnd.Bool() {
+				mkRows(rnd, r, rnd.Range(0, 2))
+				r.add("doneX", srv.Done(srv.TokDoneInProc, srv.DoneMore|srv.DoneCount, 0, 1))
+			}
+			r.add("pkg", srv.ReturnStatus(0))
+			tok := byte(srv.TokDoneProc)
+			if rnd.Chance(1, 3) {
+				tok = srv.TokDoneInProc
+			}
+			r.add("done0", srv.Done(tok, 0, 0, 0))
+			return r
+		}},
 		{"multi-result-sets", func(rnd *rt.Rand) *response {
 			r := &response{}
 			mkRows(rnd, r, rnd.Range(1, 2))
